@@ -188,12 +188,11 @@ const _: () = {
             let TextOrFiles::Files(files) = &mut self.text_ot_files else {
                 return Err((|| Error::ExpectedFile())())
             };
-            (files.len() == 1)
-                .then_some({
-                    let file = unsafe {files.pop().unwrap_unchecked()};
-                    visitor.visit_map(file.into_deserializer())?
-                })
-                .ok_or_else(Error::UnexpectedMultipleFiles)
+            if files.len() != 1 {/* `then_some` would evaluate `unwrap_unchecked` also for an empty file input */
+                return Err((|| Error::UnexpectedMultipleFiles())())
+            }
+            let file = unsafe {files.pop().unwrap_unchecked()};
+            visitor.visit_map(file.into_deserializer())
         }
 
         fn deserialize_seq<V>(self, visitor: V) -> Result<V::Value, Self::Error>
